@@ -48,7 +48,7 @@ def _diff(a, b, parent="Module", field="body") -> Optional[dict]:
                             added += vb[j1:j2]
                     return {"old": "[" + ",".join(type(x).__name__ for x in removed) + "]",
                             "new": "[" + ",".join(type(x).__name__ for x in added) + "]",
-                            "parent": type(a).__name__, "field": f, "_old": removed, "_new": added,
+                            "parent": type(a).__name__, "field": f, "_old": removed, "_new": added, "_pa": a, "_pb": b,
                             "old_src": " | ".join(_src(x) for x in removed)[:240],
                             "new_src": " | ".join(_src(x) for x in added)[:240]}
             else:
@@ -78,7 +78,20 @@ def shape(before: str, after: str) -> dict:
     d = _diff(ta, tb)
     if not d:
         return {"old": "=", "new": "=", "parent": "Module", "field": "body", "old_src": "", "new_src": "", "features": []}
+    pa, pb = d.pop("_pa", None), d.pop("_pb", None)
     d["features"] = _features(d.pop("_old", None), d.pop("_new", None), ta, tb)
+    # a dict display lost duplicate keys: does every key keep the value of its LAST occurrence?
+    if isinstance(pa, ast.Dict) and isinstance(pb, ast.Dict):
+        def last_values(node):
+            out = {}
+            for k, v in zip(node.keys, node.values):
+                if isinstance(k, ast.Constant):
+                    out[repr(k.value)] = ast.dump(v)
+            return out
+        if last_values(pa) == last_values(pb):
+            d["features"].append("dict-dedupe-keeps-last-value")
+        else:
+            d["features"].append("dict-dedupe-changes-a-value")
     return d
 
 
